@@ -32,6 +32,14 @@ func (a *Addressing) ExtractMailbox(address string) (string, error) {
 	if err != nil {
 		return "", err
 	}
+	if local == "" {
+		// Nothing but a +extension.
+		return "", errors.New("mailbox name cannot be empty")
+	}
+	if local[len(local)-1] == '.' {
+		// "name.+ext": the remaining name could not be looked up again.
+		return "", errors.New("mailbox name cannot end with a period")
+	}
 
 	if a.Config.MailboxNaming == config.LocalNaming {
 		return local, nil
@@ -49,7 +57,17 @@ func (a *Addressing) ExtractMailbox(address string) (string, error) {
 		return "", fmt.Errorf("domain part %q in %q failed validation", domain, address)
 	}
 
-	return local + "@" + domain, nil
+	return local + "@" + canonicalDomain(domain), nil
+}
+
+// canonicalDomain returns the spelling of a validated domain part used in mailbox names:
+// domains are case-insensitive, so the name must not depend on the case they were typed in.
+func canonicalDomain(domain string) string {
+	domain = strings.ToLower(domain)
+	if strings.HasPrefix(domain, "[ipv6:") {
+		domain = "[IPv6:" + domain[6:]
+	}
+	return domain
 }
 
 // NewRecipient parses an address into a Recipient. This is used for parsing RCPT TO arguments,
@@ -160,7 +178,7 @@ func ValidateDomainPart(domain string) bool {
 	if ln >= 4 && domain[0] == '[' && domain[ln-1] == ']' {
 		// Bracketed domains must contain an IP address.
 		s := 1
-		if strings.HasPrefix(domain[1:], "IPv6:") {
+		if len(domain) > 6 && strings.EqualFold(domain[1:6], "IPv6:") {
 			s = 6
 		}
 		ip := net.ParseIP(domain[s : ln-1])
@@ -238,7 +256,7 @@ func extractDomainMailbox(address string) (string, error) {
 		return "", fmt.Errorf("domain part %q in %q failed validation", domain, address)
 	}
 
-	return domain, nil
+	return canonicalDomain(domain), nil
 }
 
 // parseEmailAddress unescapes an email address, and splits the local part from the domain part.  An
